@@ -51,14 +51,14 @@ class C03(Spec):
             for s in docs.g1_shards(2):
                 out.append(self.job(s))
             for i, s in enumerate(docs.g2_shards(docs.load_pool("thorough"), replace=True)):
-                if i % 2 == 0:
+                if i % 3 == 0:
                     out.append(self.job(s))
         return out
 
     def bounds_text(self, tier):
         if tier == "quick":
             return {"G1": "all documents of length 0..2 over the C03 cell domain", "G2": "mini pool, one symbolic cell replacing each position"}
-        return {"G1": "all documents of length 0..2 over the C03 cell domain", "G2": "full pool, one cell replacing every second position", "G1-Sigma": "autolink alphabet length 6, emphasis 6, links 5, containers 5"}
+        return {"G1": "all documents of length 0..2 over the C03 cell domain", "G2": "full pool, one cell replacing every third position", "G1-Sigma": "autolink alphabet length 6, emphasis 6, links 5, containers 5"}
 
     def readable(self, case):
         from checks.html_real import doc_of
